@@ -20,7 +20,12 @@ import (
 	"testing"
 	"time"
 
+	commonpb "go.temporal.io/api/common/v1"
+	"go.temporal.io/api/enums/v1"
+	historypb "go.temporal.io/api/history/v1"
+	"go.temporal.io/server/api/adminservice/v1"
 	"go.temporal.io/server/client/history"
+	"go.temporal.io/server/common/persistence/serialization"
 	"google.golang.org/grpc"
 	"google.golang.org/grpc/credentials/insecure"
 	"google.golang.org/grpc/metadata"
@@ -133,12 +138,51 @@ type vplCall struct {
 	Method string
 	Ns     string
 	HasNs  bool
+	SaKeys []string // search-attribute keys in the request's history batches
 }
 type vplFake struct {
 	mu    sync.Mutex
 	calls []vplCall
 	srv   *grpc.Server
 	addr  string
+	saOwn string // this cluster's own name of the mapped search attribute ("" = do not put search attributes into responses)
+}
+
+var vplSerializer = serialization.NewSerializer()
+
+// a history batch holding one UpsertWorkflowSearchAttributes event with the given keys
+func vplSaBlob(keys []string) *commonpb.DataBlob {
+	f := map[string]*commonpb.Payload{}
+	for _, k := range keys {
+		f[k] = &commonpb.Payload{Data: []byte("\"v-" + k + "\"")}
+	}
+	ev := &historypb.HistoryEvent{EventId: 5, EventType: enums.EVENT_TYPE_UPSERT_WORKFLOW_SEARCH_ATTRIBUTES,
+		Attributes: &historypb.HistoryEvent_UpsertWorkflowSearchAttributesEventAttributes{UpsertWorkflowSearchAttributesEventAttributes: &historypb.UpsertWorkflowSearchAttributesEventAttributes{
+			SearchAttributes: &commonpb.SearchAttributes{IndexedFields: f}}}}
+	b, err := vplSerializer.SerializeEvents([]*historypb.HistoryEvent{ev})
+	if err != nil {
+		panic(err)
+	}
+	return b
+}
+
+func vplSaKeysOf(blobs []*commonpb.DataBlob) []string {
+	keys := []string{}
+	for _, b := range blobs {
+		evs, err := vplSerializer.DeserializeEvents(b)
+		if err != nil {
+			return []string{"undecodable: " + err.Error()}
+		}
+		for _, ev := range evs {
+			if a := ev.GetUpsertWorkflowSearchAttributesEventAttributes(); a != nil {
+				for k, v := range a.GetSearchAttributes().GetIndexedFields() {
+					keys = append(keys, k+"="+string(v.GetData()))
+				}
+			}
+		}
+	}
+	sort.Strings(keys)
+	return keys
 }
 
 func (f *vplFake) take() []vplCall {
@@ -198,10 +242,17 @@ func vplStartFake(t *testing.T) *vplFake {
 			call.HasNs = true
 			call.Ns = in.ProtoReflect().Get(m.Input().Fields().ByName("namespace")).String()
 		}
+		if r, ok := in.(*adminservice.ImportWorkflowExecutionRequest); ok {
+			call.SaKeys = vplSaKeysOf(r.GetHistoryBatches())
+		}
 		f.mu.Lock()
 		f.calls = append(f.calls, call)
+		own := f.saOwn
 		f.mu.Unlock()
 		out := vplNewMsg(m.Output())
+		if r, ok := out.(*adminservice.GetWorkflowExecutionRawHistoryV2Response); ok && own != "" {
+			r.HistoryBatches = []*commonpb.DataBlob{vplSaBlob([]string{own, "sa-same", "sa-free"})}
+		}
 		if call.HasNs {
 			vplSetRespNs(out.ProtoReflect(), call.Ns) // echo the name this cluster saw
 		}
@@ -212,13 +263,14 @@ func vplStartFake(t *testing.T) *vplFake {
 }
 
 type vplCase struct {
-	ID      int    `json:"id"`
-	Side    string `json:"side"`
-	Policy  string `json:"policy"`
-	Mapping bool   `json:"mapping"`
-	Bypass  bool   `json:"bypass"`
-	Name    string `json:"name"`
-	M       struct {
+	ID        int    `json:"id"`
+	Transport string `json:"transport"` // "tcp" (default) | "mux": the remote-facing side of the proxy under test is a mux session
+	Side      string `json:"side"`
+	Policy    string `json:"policy"`
+	Mapping   bool   `json:"mapping"`
+	Bypass    bool   `json:"bypass"`
+	Name      string `json:"name"`
+	M         struct {
 		Service string `json:"service"`
 		Method  string `json:"method"`
 		Stream  bool   `json:"stream"`
@@ -227,10 +279,11 @@ type vplCase struct {
 }
 
 type vplEnv struct {
-	local, remote *vplFake
+	local, remote   *vplFake
 	inAddr, outAddr string
-	cancel context.CancelFunc
-	cc     *ClusterConnection
+	cancel          context.CancelFunc
+	cc              *ClusterConnection
+	peer            *ClusterConnection // mux only: the plain proxy on the remote side
 	inConn, outConn *grpc.ClientConn
 }
 
@@ -244,8 +297,15 @@ func vplFreeAddr(t *testing.T) string {
 	return a
 }
 
-func vplSetup(t *testing.T, policy string, mapping bool) *vplEnv {
+// vplSA: the connection also gets a search-attribute mapping (local sa-l <-> remote sa-r, and an identity entry)
+var vplSA bool
+
+func vplSetup(t *testing.T, policy string, mapping bool, transport string) *vplEnv {
 	e := &vplEnv{local: vplStartFake(t), remote: vplStartFake(t), inAddr: vplFreeAddr(t), outAddr: vplFreeAddr(t)}
+	if vplSA {
+		e.local.saOwn, e.remote.saOwn = "sa-l", "sa-r"
+	}
+	muxAddr := vplFreeAddr(t)
 	cfg := config.ClusterConnConfig{
 		Name: "verif-pipeline",
 		Local: config.ClusterDefinition{ConnectionType: config.ConnTypeTCP,
@@ -258,6 +318,11 @@ func vplSetup(t *testing.T, policy string, mapping bool) *vplEnv {
 		cfg.NamespaceTranslation = config.StringTranslator{Mappings: []config.StringMapping{
 			{Local: "ns-allowed", Remote: "ns-remote-ok"}, {Local: "ns-forbidden", Remote: "ns-remote-bad"}}}
 	}
+	if vplSA {
+		cfg.SearchAttributeTranslation = config.SATranslationConfig{NamespaceMappings: []config.SANamespaceMapping{{
+			Name: "ns-allowed", NamespaceId: "ns-id-1",
+			Mappings: []config.SAMapping{{LocalName: "sa-l", RemoteName: "sa-r"}, {LocalName: "sa-same", RemoteName: "sa-same"}}}}}
+	}
 	switch policy {
 	case "methods":
 		cfg.ACLPolicy = &config.ACLPolicy{AllowedMethods: config.AllowedMethods{AdminService: []string{"DescribeCluster", "GetNamespace", "StreamWorkflowReplicationMessages"}}}
@@ -269,12 +334,37 @@ func vplSetup(t *testing.T, policy string, mapping bool) *vplEnv {
 	}
 	ctx, cancel := context.WithCancel(context.Background())
 	e.cancel = cancel
-	cc, err := NewClusterConnection(ctx, cfg, vrtLoggers())
-	if err != nil {
-		t.Fatalf("NewClusterConnection: %v", err)
+	if transport == "mux" {
+		// proxy under test: remote side is a mux server; the peer proxy (no policy, no mapping) establishes the mux and
+		// exposes a TCP server to the remote cluster (e.inAddr) whose calls travel over the mux to the proxy under test
+		cfg.Remote = config.ClusterDefinition{ConnectionType: config.ConnTypeMuxServer, MuxAddressInfo: config.TCPTLSInfo{ConnectionString: muxAddr}}
+		peerCfg := config.ClusterConnConfig{
+			Name: "verif-pipeline-peer",
+			Local: config.ClusterDefinition{ConnectionType: config.ConnTypeTCP,
+				TcpServer: config.TCPTLSInfo{ConnectionString: e.inAddr}, TcpClient: config.TCPTLSInfo{ConnectionString: e.remote.addr}},
+			Remote:         config.ClusterDefinition{ConnectionType: config.ConnTypeMuxClient, MuxAddressInfo: config.TCPTLSInfo{ConnectionString: muxAddr}},
+			FVITranslation: config.IntMapping{Local: 20, Remote: 10},
+		}
+		cc, err := NewClusterConnection(ctx, cfg, vrtLoggers())
+		if err != nil {
+			t.Fatalf("NewClusterConnection (mux server): %v", err)
+		}
+		e.cc = cc
+		cc.Start()
+		peer, err := NewClusterConnection(ctx, peerCfg, vrtLoggers())
+		if err != nil {
+			t.Fatalf("NewClusterConnection (mux client): %v", err)
+		}
+		e.peer = peer
+		peer.Start()
+	} else {
+		cc, err := NewClusterConnection(ctx, cfg, vrtLoggers())
+		if err != nil {
+			t.Fatalf("NewClusterConnection: %v", err)
+		}
+		e.cc = cc
+		cc.Start()
 	}
-	e.cc = cc
-	cc.Start()
 	dial := func(addr string) *grpc.ClientConn {
 		c, err := grpc.NewClient(addr, grpc.WithTransportCredentials(insecure.NewCredentials()))
 		if err != nil {
@@ -306,6 +396,7 @@ func vplRun(e *vplEnv, c vplCase) map[string]interface{} {
 	if c.Side == "outbound" {
 		conn, serving = e.outConn, e.remote
 	}
+	_ = serving
 	e.local.take()
 	e.remote.take()
 	full := "/" + string(sd.FullName()) + "/" + c.M.Method
@@ -325,9 +416,39 @@ func vplRun(e *vplEnv, c vplCase) map[string]interface{} {
 		var st grpc.ClientStream
 		st, err = conn.NewStream(ctx, &grpc.StreamDesc{StreamName: c.M.Method, ServerStreams: true, ClientStreams: true}, full)
 		if err == nil {
+			// keep the stream open until the serving cluster has seen it (an immediately abandoned stream may
+			// legitimately never get there), or a refusal / deadline ends the wait
+			got := make(chan error, 1)
+			go func() {
+				o := vplNewMsg(m.Output())
+				got <- st.RecvMsg(o)
+			}()
+			dl := time.Now().Add(2 * time.Second)
+			var early error
+			done := false
+			for time.Now().Before(dl) && !done {
+				select {
+				case early = <-got:
+					done = true
+				default:
+					serving.mu.Lock()
+					n := len(serving.calls)
+					serving.mu.Unlock()
+					if n > 0 {
+						done = true
+					} else {
+						time.Sleep(200 * time.Microsecond)
+					}
+				}
+			}
 			_ = st.CloseSend()
-			out := vplNewMsg(m.Output())
-			err = st.RecvMsg(out)
+			if early == nil {
+				select {
+				case early = <-got:
+				case <-time.After(3 * time.Second):
+				}
+			}
+			err = early
 			if err != nil && err.Error() == "EOF" {
 				err = nil
 			}
@@ -353,7 +474,20 @@ func vplRun(e *vplEnv, c vplCase) map[string]interface{} {
 	} else {
 		rec["status"] = "OK"
 	}
-	time.Sleep(time.Millisecond)
+	// a successful call has been (or, for a stream through two proxies, is being) forwarded: wait for the serving cluster
+	// to see it, bounded
+	if rec["status"] == "OK" {
+		dl := time.Now().Add(2 * time.Second)
+		for time.Now().Before(dl) {
+			serving.mu.Lock()
+			n := len(serving.calls)
+			serving.mu.Unlock()
+			if n > 0 {
+				break
+			}
+			time.Sleep(200 * time.Microsecond)
+		}
+	}
 	calls := serving.take()
 	other := e.remote.take()
 	if c.Side == "outbound" {
@@ -407,7 +541,7 @@ func TestVerifPipelineCases(t *testing.T) {
 	// one cluster connection per (policy, mapping)
 	groups := map[string][]vplCase{}
 	for _, c := range cases {
-		k := fmt.Sprintf("%s/%v", c.Policy, c.Mapping)
+		k := fmt.Sprintf("%s/%v/%s", c.Policy, c.Mapping, c.Transport)
 		groups[k] = append(groups[k], c)
 	}
 	keys := []string{}
@@ -417,7 +551,23 @@ func TestVerifPipelineCases(t *testing.T) {
 	sort.Strings(keys)
 	for _, k := range keys {
 		g := groups[k]
-		e := vplSetup(t, g[0].Policy, g[0].Mapping)
+		e := vplSetup(t, g[0].Policy, g[0].Mapping, g[0].Transport)
+		if g[0].Transport == "mux" {
+			// wait for the mux session: a harmless call through the peer must reach the local fake
+			dl := time.Now().Add(8 * time.Second)
+			for time.Now().Before(dl) {
+				r := vplRun(e, vplCase{Side: "inbound", Policy: "none", M: struct {
+					Service string `json:"service"`
+					Method  string `json:"method"`
+					Stream  bool   `json:"stream"`
+					HasNs   bool   `json:"hasns"`
+				}{"admin", "DescribeCluster", false, false}})
+				if r["status"] == "OK" {
+					break
+				}
+				time.Sleep(50 * time.Millisecond)
+			}
+		}
 		// wait until both proxy servers accept connections
 		deadline := time.Now().Add(5 * time.Second)
 		for time.Now().Before(deadline) {
@@ -442,47 +592,136 @@ func TestVerifPipelineCases(t *testing.T) {
 }
 
 // C13 start-up clause: mapping lists that are not one-to-one are rejected when the cluster connection is built.
+// The lists come from TLC (spec/Pipeline MappingLists); the verdict is PipelineObs!JudgeMap's.
+// Search-attribute direction on the ASSEMBLED servers (C14): one record per (side, transport, leg). The caller speaks its own
+// cluster's names; the record holds the keys the receiving side got (request leg: the serving fake; response leg: the caller).
+type vplSaCase struct {
+	ID        int    `json:"id"`
+	Side      string `json:"side"`
+	Transport string `json:"transport"`
+	Leg       string `json:"leg"`
+}
+
+func TestVerifPipelineSA(t *testing.T) {
+	in := os.Getenv("VERIF_IN")
+	if in == "" {
+		t.Skip("VERIF_IN not set")
+	}
+	raw, err := os.ReadFile(in)
+	if err != nil {
+		t.Fatal(err)
+	}
+	outf, err := os.Create(os.Getenv("VERIF_OUT"))
+	if err != nil {
+		t.Fatal(err)
+	}
+	defer outf.Close()
+	enc := json.NewEncoder(outf)
+	vplSA = true
+	defer func() { vplSA = false }()
+	envs := map[string]*vplEnv{}
+	defer func() {
+		for _, e := range envs {
+			e.close()
+		}
+	}()
+	for _, line := range strings.Split(string(raw), "\n") {
+		if strings.TrimSpace(line) == "" {
+			continue
+		}
+		var c vplSaCase
+		if err := json.Unmarshal([]byte(line), &c); err != nil {
+			t.Fatalf("bad case: %v", err)
+		}
+		e := envs[c.Transport]
+		if e == nil {
+			e = vplSetup(t, "none", true, c.Transport)
+			envs[c.Transport] = e
+			time.Sleep(300 * time.Millisecond)
+		}
+		rec := map[string]interface{}{"ev": "SaCase", "case": c, "ran": false, "keys": []string{}, "err": ""}
+		conn, serving, own := e.inConn, e.local, "sa-r" // inbound: the caller is the remote cluster
+		if c.Side == "outbound" {
+			conn, serving, own = e.outConn, e.remote, "sa-l"
+		}
+		e.local.take()
+		e.remote.take()
+		ctx, cancel := context.WithTimeout(context.Background(), 5*time.Second)
+		cl := adminservice.NewAdminServiceClient(conn)
+		if c.Leg == "req" {
+			_, err := cl.ImportWorkflowExecution(ctx, &adminservice.ImportWorkflowExecutionRequest{
+				HistoryBatches: []*commonpb.DataBlob{vplSaBlob([]string{own, "sa-same", "sa-free"})}})
+			if err != nil {
+				rec["err"] = err.Error()
+			} else {
+				for _, call := range serving.take() {
+					if call.Method == "ImportWorkflowExecution" {
+						rec["ran"], rec["keys"] = true, call.SaKeys
+					}
+				}
+			}
+		} else {
+			resp, err := cl.GetWorkflowExecutionRawHistoryV2(ctx, &adminservice.GetWorkflowExecutionRawHistoryV2Request{})
+			if err != nil {
+				rec["err"] = err.Error()
+			} else {
+				rec["ran"], rec["keys"] = true, vplSaKeysOf(resp.GetHistoryBatches())
+			}
+		}
+		cancel()
+		_ = enc.Encode(rec)
+	}
+}
+
 func TestVerifPipelineBadMappings(t *testing.T) {
-	out := os.Getenv("VERIF_OUT")
-	if out == "" {
-		t.Skip("VERIF_OUT not set")
+	in, out := os.Getenv("VERIF_IN"), os.Getenv("VERIF_OUT")
+	if in == "" || out == "" {
+		t.Skip("VERIF_IN / VERIF_OUT not set")
 	}
-	type mp = config.StringMapping
-	sets := map[string][]mp{
-		"bijective":     {{Local: "a", Remote: "b"}, {Local: "c", Remote: "d"}},
-		"chain":         {{Local: "a", Remote: "b"}, {Local: "b", Remote: "c"}},
-		"dup-local":     {{Local: "a", Remote: "b"}, {Local: "a", Remote: "c"}},
-		"dup-remote":    {{Local: "a", Remote: "b"}, {Local: "c", Remote: "b"}},
-		"dup-pair":      {{Local: "a", Remote: "b"}, {Local: "a", Remote: "b"}},
-		"three-one-dup": {{Local: "a", Remote: "x"}, {Local: "b", Remote: "y"}, {Local: "c", Remote: "x"}},
+	fin, err := os.Open(in)
+	if err != nil {
+		t.Fatal(err)
 	}
+	defer fin.Close()
 	f, err := os.Create(out)
 	if err != nil {
 		t.Fatal(err)
 	}
 	defer f.Close()
-	enc := json.NewEncoder(f)
-	names := []string{}
-	for n := range sets {
-		names = append(names, n)
-	}
-	sort.Strings(names)
-	for _, n := range names {
+	w := bufio.NewWriterSize(f, 1<<20)
+	defer w.Flush()
+	enc := json.NewEncoder(w)
+	sc := bufio.NewScanner(fin)
+	sc.Buffer(make([]byte, 1<<20), 1<<26)
+	for sc.Scan() {
+		if len(sc.Bytes()) == 0 {
+			continue
+		}
+		var c struct {
+			List []struct {
+				Local  string `json:"local"`
+				Remote string `json:"remote"`
+			} `json:"list"`
+		}
+		if err := json.Unmarshal(sc.Bytes(), &c); err != nil {
+			t.Fatalf("bad mapping case: %v", err)
+		}
+		var ms []config.StringMapping
+		for _, p := range c.List {
+			ms = append(ms, config.StringMapping{Local: p.Local, Remote: p.Remote})
+		}
+		a1, a2 := vplFreeAddr(t), vplFreeAddr(t)
 		cfg := config.ClusterConnConfig{Name: "verif-badmap",
-			Local: config.ClusterDefinition{ConnectionType: config.ConnTypeTCP, TcpServer: config.TCPTLSInfo{ConnectionString: vplFreeAddr(t)}, TcpClient: config.TCPTLSInfo{ConnectionString: "127.0.0.1:1"}},
-			Remote: config.ClusterDefinition{ConnectionType: config.ConnTypeTCP, TcpServer: config.TCPTLSInfo{ConnectionString: vplFreeAddr(t)}, TcpClient: config.TCPTLSInfo{ConnectionString: "127.0.0.1:1"}},
-			NamespaceTranslation: config.StringTranslator{Mappings: sets[n]}}
+			Local:                config.ClusterDefinition{ConnectionType: config.ConnTypeTCP, TcpServer: config.TCPTLSInfo{ConnectionString: a1}, TcpClient: config.TCPTLSInfo{ConnectionString: "127.0.0.1:1"}},
+			Remote:               config.ClusterDefinition{ConnectionType: config.ConnTypeTCP, TcpServer: config.TCPTLSInfo{ConnectionString: a2}, TcpClient: config.TCPTLSInfo{ConnectionString: "127.0.0.1:1"}},
+			NamespaceTranslation: config.StringTranslator{Mappings: ms}}
 		ctx, cancel := context.WithCancel(context.Background())
 		_, err := NewClusterConnection(ctx, cfg, vrtLoggers())
 		cancel()
-		locals, remotes := map[string]bool{}, map[string]bool{}
-		inj := true
-		for _, m := range sets[n] {
-			if locals[m.Local] || remotes[m.Remote] {
-				inj = false
-			}
-			locals[m.Local], remotes[m.Remote] = true, true
+		msg := ""
+		if err != nil {
+			msg = err.Error()
 		}
-		_ = enc.Encode(map[string]interface{}{"ev": "BadMap", "name": n, "onetoone": inj, "rejected": err != nil})
+		_ = enc.Encode(map[string]interface{}{"ev": "BadMap", "list": c.List, "rejected": err != nil, "err": msg})
 	}
 }
